@@ -15,6 +15,7 @@ CONSTANTS
   DerivedP = {"props", "ppty", "bare", "empty"}
   DerivedC = {}
   DerivedM = {}
+  DerivedW = {}
   MaxOverrides = 1
   MaxRoots = 2
 CONSTRAINT GBound
